@@ -760,6 +760,17 @@ class H2Connection:
             "Send headers on stream ID %d", stream_id
         )
 
+        # We may need to send priority information. Servers may not: refuse
+        # before anything (stream state, header compression) has changed.
+        priority_present = (
+            (priority_weight is not None) or
+            (priority_depends_on is not None) or
+            (priority_exclusive is not None)
+        )
+
+        if priority_present and not self.config.client_side:
+            raise RFC1122Error("Servers SHOULD NOT prioritize streams.")
+
         # Check we can open the stream.
         if stream_id not in self.streams:
             max_open_streams = self.remote_settings.max_concurrent_streams
@@ -777,17 +788,7 @@ class H2Connection:
             headers, self.encoder, end_stream
         )
 
-        # We may need to send priority information.
-        priority_present = (
-            (priority_weight is not None) or
-            (priority_depends_on is not None) or
-            (priority_exclusive is not None)
-        )
-
         if priority_present:
-            if not self.config.client_side:
-                raise RFC1122Error("Servers SHOULD NOT prioritize streams.")
-
             headers_frame = frames[0]
             headers_frame.flags.add('PRIORITY')
             frames[0] = _add_frame_priority(
